@@ -108,6 +108,8 @@ def add_data_lines(b):
             continue
         if name.startswith(".") or "/" in name or (len(name) > 2 and name[-2] == "." and name[-1] in "rimaz"):
             continue
+        if name == "FILEFRAM":      # names INDEX when the dirfile ends up at Standards Version <= 5
+            continue
         ty = int(kv["ty"])
         idx = GFRAME - int(f["off"])
         if idx < 0:
@@ -236,7 +238,7 @@ class Gen:
             self.used_special.add(x)
             return x
         return self.rng.choice(["r", "i", "m", "a", "z", "x.r", "y.i", ".a", "x.q", "INDEX", "x.INDEX", ".INDEX",
-                                "IN", "DEX", "FILEFRAM", "VERSION", "a.b.c", "q.", "..x", "x..y", "a/b/c", "/a", "a<b", "ENCODING"])
+                                "IN", "DEX", "FILEFRAM", "a.b.c", "q.", "..x", "x..y", "a/b/c", "/a", "a<b"])
 
     def ge(self, v):
         return self.ver is None or self.ver >= v
@@ -440,23 +442,27 @@ class Gen:
                 lines.append(("I", dirs, px, sx, sub))
             # resolve pending forward definitions now and then
             if pending and rng.random() < 0.4:
-                self.flush_one(pending, lines, defs)
+                self.flush_one(pending, lines, defs, cur)
         while pending and (clean or rng.random() < 0.5):
-            self.flush_one(pending, lines, defs)
+            self.flush_one(pending, lines, defs, cur)
         return lines
 
-    def flush_one(self, pending, lines, defs):
+    def flush_one(self, pending, lines, defs, cur):
         p = pending.pop()
         if p[0] == "into" and len(p) == 4:
             if self.clean and not self.ge(9):
                 return
-            lines.append(("A", p[1], "." + (p[3] + "." if p[3] else "") + p[2] if self.ge(10) and p[3] else p[2]))
-            defs.append((p[1], p[3], "A"))
+            c0 = p[3]
+            if c0 != cur and not self.ge(10):
+                return
+            lines.append(("A", p[1] if c0 == cur else "." + (c0 + "." if c0 else "") + p[1],
+                          p[2] if c0 == cur else "." + (c0 + "." if c0 else "") + p[2]))
+            defs.append((p[1], c0, "A"))
         else:
             nm, c0 = p
-            if self.clean and c0 != "" and not self.ge(10):
+            if c0 != cur and not self.ge(10):
                 return
-            lines.append(("FR", ("." + (c0 + "." if c0 else "") + nm) if c0 else nm, False))
+            lines.append(("FR", nm if c0 == cur else "." + (c0 + "." if c0 else "") + nm, False))
             defs.append((nm, c0, "R"))
 
     def tree(self):
@@ -592,7 +598,7 @@ def parse_blocks(text):
             if cur is not None and ln.endswith("CRASH"):
                 cur["status"] = "CRASH"      # crashed after printing part of a block
                 continue
-            cur = {"tag": ln.split()[0], "status": ln.split()[1], "F": [], "E": [], "REF": None, "X": [], "ATTR": None, "G": []}
+            cur = {"tag": ln.split()[0], "status": ln.split()[1], "F": [], "E": [], "REF": None, "X": [], "ATTR": None, "G": [], "N": ""}
         elif ln == "END":
             if cur is not None:
                 blocks.append(cur)
@@ -611,6 +617,8 @@ def parse_blocks(text):
                 cur["X"].append(ln)
             elif ln.startswith("G "):
                 cur["G"].append(ln)
+            elif ln.startswith("N "):
+                cur["N"] = ln
     return blocks
 
 
@@ -732,14 +740,19 @@ def main():
             confirmed.add(K_API_RENAME)
             stat["deviations"] += 1
             continue
-        if tags[i] == "api" and cs != "UNSPEC" and ci != cs and cm == cs:
+        if tags[i].startswith("api") and ib["status"] == "ERR" and "INC failed: -21" in ib.get("N", "") and cs != "ERR":
+            # gd_include honours the /REFERENCE of the fragment it includes at once (GD_E_BAD_REFERENCE),
+            # a format file only needs its LAST /REFERENCE to be good: documented difference, case skipped
+            stat["api-skipped"] = stat.get("api-skipped", 0) + 1
+            continue
+        if tags[i] == "api" and cs != "UNSPEC" and ci != cm:
             strip = lambda c: "\n".join(ln.split(" res=")[0] if ln.startswith("E ") and " kind=A " in ln else ln for ln in c.split("\n"))
-            if strip(ci) == strip(cs):
+            if strip(ci) == strip(cm):
                 chk.violation(K_API_STALE, "after the API script of tree %s an alias chain is dangling although its target exists: %s; the Standards give %s" % (
                     ser_tree(t)[:200], ci[:400], cs[:400]), dict(replay, kind="impl-vs-spec", attr=attr), found=True)
                 confirmed.add(K_API_STALE)
                 stat["deviations"] += 1
-                continue
+                ci = cm       # go on with whatever else this tree shows
         if ci != cm:
             if cs != "UNSPEC" and ci != cs and attr.get("dotns") == "1":
                 # names with a leading dot are inserted into D->entry at the position of the name
